@@ -122,7 +122,7 @@ def export(c, ex=None):
         'stubs': sorted(c.stubs), 'unwinding': c.unwinding, 'functions': c.functions,
         'tv': c.translator_validation, 'extra': c.extra,
     }
-    return d
+    return json.loads(json.dumps(d, default=str))
 
 
 def merge(chk, d):
